@@ -13,8 +13,10 @@ import (
 
 func init() { reg("C07", C07) }
 
+var condBranches = []string{"BNE", "BEQ", "BPL", "BMI", "BCC", "BCS"}
+
 func C07(r *vf.Run) {
-	r.Rule = "random straight-line programs from every Emitter method except control transfers / PLP / RTI / STP, all four initial width assumptions, REP/SEP with all 256 masks interleaved with immediates of both sizes, truthful AssumeREP/AssumeSEP calls; the emitted bytes run on both CPUs over fully mapped memory and the K:PC before each Step is compared with the emitter's PC() before each emitting call, final M/X with IsM16bit/IsX16bit; plus the exhaustive refusal matrix (width-guarded method x tracked state). A cell is (width states visited in order, capped) or (method, state, accepted|refused)"
+	r.Rule = "random straight-line programs from every Emitter method except unconditional transfers / PLP / RTI / STP - labels and conditional branches (label-based forward/backward and explicit displacement) included, the monitor forcing the tested flag so that no branch is taken -, all four initial width assumptions, REP/SEP with all 256 masks interleaved with immediates of both sizes, truthful AssumeREP/AssumeSEP calls; the emitted bytes run on both CPUs over fully mapped memory and the K:PC before each Step is compared with the emitter's PC() before each emitting call, final M/X with IsM16bit/IsX16bit; plus the exhaustive refusal matrix (width-guarded method x tracked state). A cell is (width states visited in order, capped) or (method, state, accepted|refused)"
 	r.Assume = []string{"an untruthful AssumeREP/AssumeSEP is a caller error: assumptions are generated only where true", "cases in which the program stores into its own code are discarded (counted)"}
 
 	if r.Phase("refusal-matrix") {
@@ -94,6 +96,8 @@ func C07(r *vf.Run) {
 				var hist []string
 				trail := fmt.Sprintf("%x", init>>4)
 				ninstr := 1 + g.Intn(60)
+				var pending, defined []string
+				nlabel := 0
 				for len(starts) < ninstr {
 					cur := byte(e.Flags())
 					switch k := g.Intn(12); {
@@ -110,6 +114,42 @@ func C07(r *vf.Run) {
 						if now := byte(e.Flags()) & 0x30; now != cur&0x30 && len(trail) < 12 {
 							trail += fmt.Sprintf(">%x", now>>4)
 						}
+					case k == 2: // a label here, or a conditional branch (never taken at run time) to a label
+						switch g.Intn(3) {
+						case 0:
+							nlabel++
+							name := fmt.Sprintf("l%d", nlabel)
+							e.Label(name)
+							defined = append(defined, name)
+							hist = append(hist, fmt.Sprintf("Label(%q)", name))
+						case 1: // forward reference: the label is defined later
+							nlabel++
+							name := fmt.Sprintf("f%d", nlabel)
+							m := emByName[condBranches[g.Intn(len(condBranches))]]
+							starts = append(starts, e.PC())
+							callMethod(e, m, 0, name)
+							pending = append(pending, name)
+							hist = append(hist, fmt.Sprintf("%s(%q)", m.Name, name))
+						default:
+							if len(pending) > 0 && g.Bool() {
+								name := pending[0]
+								pending = pending[1:]
+								e.Label(name)
+								hist = append(hist, fmt.Sprintf("Label(%q)", name))
+							} else if len(defined) > 0 {
+								name := defined[g.Intn(len(defined))]
+								m := emByName[condBranches[g.Intn(len(condBranches))]]
+								starts = append(starts, e.PC())
+								callMethod(e, m, 0, name)
+								hist = append(hist, fmt.Sprintf("%s(%q)", m.Name, name))
+							}
+						}
+					case k == 3: // explicit-displacement conditional branch, never taken at run time
+						m := emByName[[]string{"BNE_imm8", "BEQ_imm8", "BPL_imm8"}[g.Intn(3)]]
+						arg := uint32(g.U8())
+						starts = append(starts, e.PC())
+						callMethod(e, m, arg, "")
+						hist = append(hist, fmt.Sprintf("%s($%02x)", m.Name, arg))
 					case k == 1: // truthful assumption
 						if g.Bool() {
 							c := cur&0x30&g.U8() | g.U8()&0xC7&cur // only bits already set
@@ -148,6 +188,9 @@ func C07(r *vf.Run) {
 						}
 						hist = append(hist, fmt.Sprintf("%s($%x)", m.Name, arg&(uint32(1)<<(8*uint(m.size()-1))-1)))
 					}
+				}
+				for _, name := range pending {
+					e.Label(name)
 				}
 				end := e.PC()
 				code := append([]byte(nil), e.Bytes()...)
@@ -196,6 +239,33 @@ func C07(r *vf.Run) {
 							break
 						}
 						fetched = append(fetched, at)
+						// conditional branches are never taken (straight-line execution): force the tested flag
+						if op := m.Peek(at); op&0x1F == 0x10 {
+							var n, v, c, z *byte
+							if side == "cpu65c816" {
+								n, v, c, z = &rig.prim.N, &rig.prim.V, &rig.prim.C, &rig.prim.Z
+							} else {
+								n, v, c, z = &rig.alt.N, &rig.alt.V, &rig.alt.C, &rig.alt.Z
+							}
+							switch op {
+							case 0x10:
+								*n = 1
+							case 0x30:
+								*n = 0
+							case 0x50:
+								*v = 1
+							case 0x70:
+								*v = 0
+							case 0x90:
+								*c = 1
+							case 0xB0:
+								*c = 0
+							case 0xD0:
+								*z = 1
+							case 0xF0:
+								*z = 0
+							}
+						}
 						// block moves execute once: force the byte count to zero
 						if m.Peek(at) == 0x54 {
 							if side == "cpu65c816" {
